@@ -488,8 +488,15 @@ def _pop_line_before_zid(words: list[str]) -> str:
 
     symbol = words.pop(0)
 
+    # NOTE: Plain notes (i.e. '- ...') do NOT have a priority, so a 'P1' that
+    # follows the dash is the first word of the note's body.
     priority = ""
-    if len(words[0]) == 2 and words[0][0] == "P" and words[0][1].isdigit():
+    if (
+        symbol != "-"
+        and len(words[0]) == 2
+        and words[0][0] == "P"
+        and words[0][1].isdigit()
+    ):
         priority = f"{words.pop(0)} "
     return f"{spaces}{symbol} {priority}"
 
